@@ -251,6 +251,28 @@ impl<'tcx> Cx<'tcx> {
                             }
                         }
                     }
+                    // promoted constants behind a reference (`&Some(ProstType::X)`): keep the bytes
+                    if let Const::Unevaluated(u, _) = c.const_ {
+                        if u.promoted.is_some() {
+                            let r = std::panic::catch_unwind(std::panic::AssertUnwindSafe(|| c.const_.eval(tcx, env, rustc_span::DUMMY_SP)));
+                            if let Ok(Ok(ConstValue::Scalar(rustc_middle::mir::interpret::Scalar::Ptr(ptr, _)))) = r {
+                                let (prov, off) = ptr.prov_and_relative_offset();
+                                if let Some(rustc_middle::mir::interpret::GlobalAlloc::Memory(a)) = tcx.try_get_global_alloc(prov.alloc_id()) {
+                                    let a = a.inner();
+                                    let start = off.bytes() as usize;
+                                    let end = a.len().min(start + 64);
+                                    if start <= end {
+                                        let bytes = a.inspect_with_uninit_and_ptr_outside_interpreter(start..end);
+                                        let mut hex = String::new();
+                                        for b in bytes {
+                                            let _ = write!(hex, "{:02x}", b);
+                                        }
+                                        let _ = write!(s, ",\"pbytes\":{}", js(&hex));
+                                    }
+                                }
+                            }
+                        }
+                    }
                     if let Const::Unevaluated(u, _) = c.const_ {
                         let _ = write!(s, ",\"def\":{}", js(&tcx.def_path_str(u.def)));
                     }
